@@ -4,7 +4,7 @@ From Coq Require Import List NArith Bool Arith Lia.
 From SV Require Import lib.Bytes lib.Closure lib.SqlExpr gen.GenSched model.Graph model.GraphInv model.Sched
   model.SchedGraph proofs.GraphBase proofs.GraphNodes proofs.GraphInvP proofs.SchedProofs proofs.SchedPrims
   proofs.SchedSeq proofs.SchedSkel proofs.SchedGraphCpl proofs.SchedGraphBelow proofs.SchedGraphSim
-  proofs.SchedGraphErase proofs.SchedGraphAcyclic.
+  proofs.SchedGraphErase proofs.SchedGraphAcyclic proofs.SchedRevert.
 Import ListNotations.
 Open Scope N_scope.
 
@@ -108,15 +108,23 @@ Inductive reach : st -> graph -> Prop :=
 | reach_certified a o s g s' l g' : reach s g ->
     step_op_t idf a o s = Ok (s', l) -> run_prims g l = Some g' ->
     run_ok g l -> coupled idf s' g' -> J s' -> reach s' g'
-| reach_tick s g g' : reach s g -> update_meta g = Some g' -> reach s g'.
+| reach_tick s g g' : reach s g -> update_meta g = Some g' -> reach s g'
+(* finalize.revert_optional_steps at the end of a successful unrestricted phase: not a transaction of Graph.v's
+   alphabet; FlagInv is PROVED for it (SchedRevert.revert_optional_sound), the stored workflow that the result
+   is coupled to is certified (decidable: coupled_b, inv_core_b && ntc_b, fwf_b on every real occurrence) *)
+| reach_revert s g s' : reach s g -> FWF g ->
+    coupled idf s' (fst (revert_optional g)) -> J s' -> reach s' (fst (revert_optional g)).
 
 Lemma reach_minv s g : reach s g -> minv s g.
 Proof.
-  induction 1 as [s g H | a o s g s' l g' _ IH Hp E Er | a o s g s' l g' _ IH E Er O C' HJ' | s g g' _ IH E].
+  induction 1 as [s g H | a o s g s' l g' _ IH Hp E Er | a o s g s' l g' _ IH E Er O C' HJ' | s g g' _ IH E
+                  | s g s' _ IH Hfw C' HJ'].
   - exact H.
   - destruct (op_preserving_correct a o s g s' l IH Hp E) as [g2 [Er2 [_ H2]]]. congruence.
   - eapply op_certified_correct; eassumption.
   - destruct (tick_correct s g IH) as [g2 [E2 [_ [H2 _]]]]. congruence.
+  - destruct IH as [_ [_ HF]]. split; [exact HJ'|]. split; [exact C'|].
+    apply (revert_optional_sound g Hfw HF).
 Qed.
 
 Theorem cached_equals_spec_at_every_decision s g : reach s g ->
@@ -124,6 +132,24 @@ Theorem cached_equals_spec_at_every_decision s g : reach s g ->
     forall x, In x (dispatch_set g') <-> (In x (g_steps g') /\ eligible_spec g' x = true).
 Proof.
   intros H. destruct (tick_correct s g (reach_minv s g H)) as [g' [E [HA [_ Hd]]]]. exists g'. auto.
+Qed.
+
+(* C11 at every decision of a history (steps created during the phase by define_step / amend_step
+   transactions included; revert_optional_steps between phases): every dispatched step is needed above
+   the threshold, and a step that nothing else holds back is dispatched iff it is needed *)
+Theorem executed_iff_needed_at_every_decision s g : reach s g ->
+  exists g', update_meta g = Some g' /\ AllCorrect g' /\
+    (forall x, In x (dispatch_set g') ->
+       ND_OPTIONAL < need_spec g' (s_key x) /\ g_threshold g' < need_spec g' (s_key x)) /\
+    (forall x, In x (g_steps g') ->
+       s_state x = ST_PENDING -> s_detached x = false -> s_deferred x = false ->
+       fst (safe_spec g' x) = true -> ready_spec g' (s_key x) = true -> res_unavailable g' x = false ->
+       (In x (dispatch_set g') <->
+        ND_OPTIONAL < need_spec g' (s_key x) /\ g_threshold g' < need_spec g' (s_key x))).
+Proof.
+  intros H. destruct (reach_minv s g H) as [HJ [C HF]].
+  apply executed_iff_needed_repo;
+    [apply (J_WF idf idf_inj s g HJ C) | apply (acyclic_cpl idf idf_inj s g HJ C) | exact HF | apply (HasHashInv_cpl s g C)].
 Qed.
 
 (* the machine is never stuck on a transaction of the proven class *)
